@@ -202,6 +202,7 @@ type Sim struct {
 	crashSide    string
 	crashPending bool
 
+	draining bool     // the server is being dismantled: nothing that happens now is part of the run
 	ilsig    []string // commit order signature parts
 	crashes  int
 	gen      int // generation (incremented by Crash)
@@ -236,7 +237,40 @@ func NewSim(cfg SimCfg, pol *Policy, seed int64, rep *vh.Report) *Sim {
 	return s
 }
 
+// dismantle lets every coroutine of a server that is being thrown away run to its end (gocoro coroutines are
+// goroutines: abandoned while they wait for a completion they, and everything they reference, would stay in memory
+// for the rest of the process). All outstanding and further submissions fail at once; nothing is monitored.
+func (s *Sim) dismantle(sys *system.System, a *advAIO, ap api.API) {
+	if sys == nil || a == nil || ap == nil {
+		return
+	}
+	was := s.draining
+	s.draining = true
+	defer func() {
+		s.draining = was
+		_ = recover()
+	}()
+	ap.Shutdown()
+	a.closing = true
+	a.dead = true
+	for i := 0; i < 300; i++ {
+		pend := a.pending
+		a.pending = nil
+		for _, p := range pend {
+			p.sqe.Callback(nil, t_api.NewError(t_api.StatusSystemShuttingDown, nil))
+		}
+		for _, h := range a.cq {
+			h.ready = 0
+		}
+		if len(pend) == 0 && len(a.cq) == 0 && sys.Done() {
+			return
+		}
+		sys.Tick(s.now)
+	}
+}
+
 func (s *Sim) Close() {
+	s.dismantle(s.sys, s.aio, s.api)
 	if s.store != nil {
 		_ = s.store.Stop()
 		s.store = nil
@@ -320,7 +354,9 @@ func (s *Sim) Crash() {
 	old := s.store
 	s.aio.dead = true
 	s.crashes++
+	oldSys, oldAio, oldApi := s.sys, s.aio, s.api
 	s.boot()
+	s.dismantle(oldSys, oldAio, oldApi)
 	_ = old.Stop()
 	s.mon.OnCrash()
 }
@@ -352,8 +388,8 @@ func (s *Sim) Submit(client string, req *t_api.Request) *OpRec {
 		Id:         id,
 		Submission: req,
 		Callback: func(res *t_api.Response, err error) {
-			if gen != s.gen {
-				return // a response of a crashed server is never seen by anyone
+			if gen != s.gen || s.draining {
+				return // a response of a crashed (or dismantled) server is never seen by anyone
 			}
 			o.Callbacks++
 			if o.Done {
@@ -412,6 +448,7 @@ func (s *Sim) Drain(dt int64, max int) bool {
 
 type advAIO struct {
 	sim     *Sim
+	closing bool // every submission fails at once (used to let in-flight coroutines run to their end)
 	pending []*pendSQE
 	cq      []*heldCQE
 	seq     int
@@ -453,6 +490,10 @@ func (a *advAIO) markUncertain(p *pendSQE) {
 
 func (a *advAIO) EnqueueSQE(sqe *bus.SQE[t_aio.Submission, t_aio.Completion]) {
 	s := a.sim
+	if a.closing {
+		sqe.Callback(nil, t_api.NewError(t_api.StatusSystemShuttingDown, nil))
+		return
+	}
 	a.seq++
 	p := &pendSQE{sqe: sqe, seq: a.seq, tick: s.now}
 	pol := s.pol
